@@ -183,10 +183,25 @@ func toUnix(v driver.Value) (int64, error) {
 	return 0, fmt.Errorf("incorrect datetime value %v", v)
 }
 
+var onConflictRx = regexp.MustCompile(`(?i)\s+ON\s+CONFLICT(\s*\([^)]*\))?\s+DO\s+NOTHING\s*;?\s*$`)
+var insertIgnoreRx = regexp.MustCompile(`(?i)^\s*INSERT\s+IGNORE\s+`)
+
 func (d *SQLDB) exec(q string, args []driver.Value) (driver.Result, error) {
 	d.mu.Lock()
 	defer d.mu.Unlock()
 	d.Statements = append(d.Statements, q)
+	// the dialects' "skip duplicates" forms: no error and zero rows affected for an existing primary key
+	skipDup := false
+	if d.Flavor == "postgres" {
+		if loc := onConflictRx.FindStringIndex(q); loc != nil {
+			q, skipDup = q[:loc[0]], true
+		}
+	}
+	if d.Flavor == "mysql" {
+		if loc := insertIgnoreRx.FindStringIndex(q); loc != nil {
+			q, skipDup = "INSERT "+q[loc[1]:], true
+		}
+	}
 	m := insertRx.FindStringSubmatch(q)
 	if m == nil {
 		return nil, d.unsupported(q)
@@ -247,6 +262,9 @@ func (d *SQLDB) exec(q string, args []driver.Value) (driver.Result, error) {
 		}
 	}
 	for _, r := range d.rows {
+		if r.id == row.id && r.created == row.created && skipDup {
+			return driver.RowsAffected(0), nil
+		}
 		if r.id == row.id && r.created == row.created {
 			return nil, fmt.Errorf("Error 1062: Duplicate entry '%s-%d' for key 'PRIMARY'", row.id, row.created)
 		}
